@@ -134,6 +134,10 @@ def run(rep: Report, tier: str) -> None:
 				left, right = res(c_.left), res(c_.comparators[0])
 				if isinstance(left, ast.Subscript) and unparse(left.value) == text_p and any(isinstance(x, ast.Subscript) and unparse(x.value) in ('brackets', 'delimiter') for x in ast.walk(right)):
 					tests.append(c_)
+			# the same test through a string method: `text.startswith(delimiter, i)` / `text.find(delimiter, i) == i`
+			for c_ in nodes(lp, ast.Call):
+				if isinstance(c_.func, ast.Attribute) and c_.func.attr in ('startswith', 'find') and unparse(c_.func.value) == text_p and c_.args and any(isinstance(x, ast.Name) and x.id in ('brackets', 'delimiter') for x in ast.walk(res(c_.args[0]))):
+					tests.append(c_)
 		if not tests:
 			r2.skip(name, f.where, f'{name} no longer compares {text_p}[i] with brackets[...] / delimiter[...] in a loop')
 			continue
@@ -162,6 +166,7 @@ def run(rep: Report, tier: str) -> None:
 	rule_callers(rep, idx)
 	rule_nesting(rep, bp)
 	rule_no_raw_bracket_search(rep, bp)
+	rule_separator_flush(rep, bp)
 
 
 def rule_angle(rep: Report, bp, pairs) -> None:
@@ -444,3 +449,68 @@ def rule_no_raw_bracket_search(rep: Report, bp) -> None:
 					r.violate(f'{f.qualname}:{unparse(c_)[:40]}', (BLOCK, c_.lineno), f'{f.qualname} searches the text for the requested bracket with `{unparse(c_)[:70]}`: the first occurrence may lie inside a foreign group or a string of the block name (`std::vector<std::function<void(int)>>(size, x)`, `f["("](a)`), the piece then starts there and is unbalanced', unparse(c_))
 	if n_raw == 0:
 		r.ok('no-raw-search', bp.where, message='no str.find / index of a requested bracket in BlockParser')
+
+
+
+def rule_separator_flush(rep: Report, bp) -> None:
+	"""`the pieces rejoined with the delimiter give back the fragment`: break_separator records a piece at every cut and one more piece after the loop. When
+	that last piece is only recorded if it is non-empty (`if begin < index`), a cut whose delimiter ENDS the text would vanish without a trace
+	(`'a, b,'` -> ['a', 'b'], the same pieces as for `'a, b'`). So either the final piece is recorded unconditionally, or no cut may be made where the
+	delimiter reaches the end of the text: the cut condition must imply index + len(delimiter) < len(text)."""
+	from vlib.linear import linear
+	r = rep.rule('C18/cuts-rejoin-to-the-fragment', 'in BlockParser.break_separator the piece after the last cut is recorded unconditionally, or every cut is conditioned on index + len(delimiter) < len(text)', floor=1)
+	f = bp.method('break_separator')
+	if f is None:
+		r.skip('break_separator', bp.where, 'BlockParser.break_separator vanished')
+		return
+	text_p, delim_p = [p_ for p_ in f.params() if p_ not in ('cls', 'self')][:2]
+	loop = next((n for n in f.node.body if isinstance(n, (ast.While, ast.For))), None)
+	if loop is None:
+		r.skip('break_separator', f.where, 'break_separator has no scanning loop at its top level')
+		return
+	cuts = [c_ for c_ in ast.walk(loop) if isinstance(c_, ast.Call) and isinstance(c_.func, ast.Attribute) and c_.func.attr == 'append' and any(isinstance(x, ast.Subscript) and unparse(x.value) == text_p and isinstance(x.slice, ast.Slice) for x in ast.walk(c_))]
+	after = f.node.body[f.node.body.index(loop) + 1:]
+	flushes = [(st, c_) for st in after for c_ in ast.walk(st) if isinstance(c_, ast.Call) and isinstance(c_.func, ast.Attribute) and c_.func.attr == 'append' and any(isinstance(x, ast.Subscript) and unparse(x.value) == text_p for x in ast.walk(c_))]
+	if not cuts or not flushes:
+		r.skip('break_separator', f.where, 'break_separator no longer appends text[begin:index] at a cut and once more after the loop')
+		return
+	def lin(e: ast.AST, depth: int = 0):
+		"""linear form with single-assignment locals expanded (`delimiter_end = index + len(delimiter)`, `size = len(delimiter)`)"""
+		terms, const = linear(e)
+		out: dict[str, int] = {}
+		for a, k in terms.items():
+			v = None
+			if a.isidentifier() and depth < 3:
+				stores = [x for x in ast.walk(f.node) if isinstance(x, ast.Name) and x.id == a and isinstance(x.ctx, ast.Store)]
+				defs_ = [x for x in ast.walk(f.node) if isinstance(x, ast.Assign) and len(x.targets) == 1 and isinstance(x.targets[0], ast.Name) and x.targets[0].id == a]
+				augs = [x for x in ast.walk(f.node) if isinstance(x, ast.AugAssign) and isinstance(x.target, ast.Name) and x.target.id == a]
+				if len(stores) == 1 and len(defs_) == 1 and not augs:
+					v = defs_[0].value
+			if v is not None:
+				t2, c2 = lin(v, depth + 1)
+				for a2, k2 in t2.items():
+					out[a2] = out.get(a2, 0) + k * k2
+				const += k * c2
+			else:
+				out[a] = out.get(a, 0) + k
+		return {a: k for a, k in out.items() if k}, const
+
+	unconditional = any(st is c_ or (isinstance(st, ast.Expr) and st.value is c_) for st, c_ in flushes)
+	if unconditional:
+		r.ok('final-piece', f.where, message='the piece after the last cut is always recorded')
+		return
+	for c_ in cuts:
+		implied = False
+		for a, p_ in atoms(f.node, c_):
+			if not (p_ and isinstance(a, ast.Compare) and len(a.ops) == 1 and isinstance(a.ops[0], (ast.Lt, ast.LtE, ast.Gt, ast.GtE))):
+				continue
+			l_, r_ = (a.left, a.comparators[0]) if isinstance(a.ops[0], (ast.Lt, ast.LtE)) else (a.comparators[0], a.left)
+			lt_, lc_ = lin(l_)
+			rt_, rc_ = lin(r_)
+			d = {k: lt_.get(k, 0) - rt_.get(k, 0) for k in set(lt_) | set(rt_)}
+			d = {k: v for k, v in d.items() if v}
+			dc = lc_ - rc_ + (1 if isinstance(a.ops[0], (ast.Lt, ast.Gt)) else 0)  # d + dc <= 0
+			idx_names = [k for k, v in d.items() if v == 1 and k not in (f'len({delim_p})',)]
+			if d.get(f'len({text_p})') == -1 and d.get(f'len({delim_p})') == 1 and len(idx_names) == 1 and len(d) == 3 and dc >= 1:
+				implied = True
+		r.check(implied, f'cut:{unparse(c_)[:40]}', (BLOCK, c_.lineno), f'a cut is made wherever the delimiter is found, also where it ends the text, while the piece after the last cut is only recorded when it is non-empty: `{text_p}` = "f(a, b), g[1, 2]," gives the pieces of "f(a, b), g[1, 2]" — the trailing delimiter is lost and the pieces no longer rejoin to the fragment (`Embed.alias("a,b", f(1, 2),)`, `T n =`, `a->b->`); conditions at the cut: {[(unparse(a)[:50], p_) for a, p_ in atoms(f.node, c_)][:4]}', unparse(c_)[:100])
